@@ -11,6 +11,7 @@ from symx import sstr as _s
 from symx.sstr import SStr, S, lift, truth, cps_of
 
 _PATTERN = type(_re.compile(""))
+LENIENT = {"repr": False}
 STATS = {"sym_calls": 0}
 
 
@@ -38,6 +39,25 @@ def _symx_not(x):
     return not x
 
 
+_SETR = {}
+
+
+def _char_ranges_of(container):
+    """ranges of the code points of the single-character strings in a hashed container (cached per container object)"""
+    hit = _SETR.get(id(container))
+    if hit is not None and hit[0] is container and hit[1] == len(container):
+        return hit[2], hit[3]
+    singles, others = [], []
+    for k in container:
+        if isinstance(k, str) and not isinstance(k, SStr) and len(k) == 1:
+            singles.append(ord(k))
+        else:
+            others.append(k)
+    r = tuple(_s._ranges(singles))
+    _SETR[id(container)] = (container, len(container), r, others)
+    return r, others
+
+
 def _symx_in(a, b):
     if isinstance(b, SStr):
         return b.__contains__(a)
@@ -45,17 +65,21 @@ def _symx_in(a, b):
         if isinstance(b, str):
             return lift(b).__contains__(a)
         if isinstance(b, (set, frozenset, dict)) or type(b).__name__ in ("dict_keys", "KeysView"):
-            # membership in a hashed container of strings == equality with one of its keys
-            for k in list(b):
-                if isinstance(k, str) and truth(_s.f_eq(k, a)):
-                    return True
-            return False
+            # membership in a hashed container of strings == equality with one of its keys: one formula, one decision
+            fs = []
+            if len(a) == 1 and isinstance(b, (set, frozenset, dict)):
+                r, others = _char_ranges_of(b)
+                fs.append(_s.in_ranges(a.cps[0], r))
+            else:
+                others = list(b)
+            for k in others:
+                if isinstance(k, str) and len(k) == len(a):
+                    fs.append(_s.f_eq(k, a))
+            return truth(_s.f_or(*fs)) if fs else False
         return a in b
     if isinstance(a, SInt) and isinstance(b, (set, frozenset, dict)):
-        for k in list(b):
-            if isinstance(k, (int, SInt)) and not isinstance(k, bool) and bool(a == k):
-                return True
-        return False
+        fs = [(a == k) for k in list(b) if isinstance(k, (int, SInt)) and not isinstance(k, bool)]
+        return truth(_s.f_or(*fs)) if fs else False
     return a in b
 
 
@@ -283,6 +307,9 @@ def sym_format(fmt, a, k):
             auto += 1
         obj, _ = f.get_field(field, a, k)
         if _sym(obj):
+            if conv == "r" and not spec and LENIENT["repr"]:
+                out.append("<symbolic value>")     # error-message rendering only; declared as a stub by the harness that enables it
+                continue
             if spec or conv not in (None, "s"):
                 raise Inconclusive("format spec %r/%r on a symbolic value" % (spec, conv))
             out.append(_symx_str(obj))
